@@ -75,6 +75,12 @@ def replay(chk, cases, variants):
                 vclick << U.InchesPer100Yd        # the caller looks at its own click objects in another unit
                 hclick << U.CmPer100m
                 chk.stratum("caller_redisplays_click")
+            if ci % 4 == 1:
+                # ... at its calibration distance in another unit, and the preferred distance unit changes after construction
+                if cal is not None:
+                    cal << [U.Foot, U.Meter, U.Inch][ci % 3]
+                m.PreferredUnits.distance = [U.Meter, U.Foot, U.Kilometer][(ci // 4) % 3]
+                chk.stratum("distance_display_and_preference_changed_after_construction")
             want_v, want_h = Fraction(*c["v"]), Fraction(*c["h"])
             # the target distance in another unit than the calibration distance for every other case
             if ci % 2:
@@ -130,7 +136,8 @@ def run(chk: core.Check, replay_path=None, **_):
         chk.sample(x)
     core.reset_world()
     chk.require_strata(["rejected", "FFP", "SFP", "LWIR", "pref_adjustment_tangent_unit", "caller_redisplays_click",
-                        "target_and_calibration_in_different_units"])
+                        "target_and_calibration_in_different_units",
+                        "distance_display_and_preference_changed_after_construction"])
     chk.extra["unit_variants"] = [f"{a[0]}/{d[0]}" for a, d in variants]
     chk.rule.append("every (focal plane, click sizes, calibration distance) x (target distance, magnification, corrections) of the "
                     "bounded Sight model, each in several angular/distance units and through both entry points; "
